@@ -257,9 +257,9 @@ func intercept(fr *frame, fn *ssa.Function, args []value) (value, bool) {
 var apiNames = map[string]bool{
 	"verifBool": true, "verifU8": true, "verifU16": true, "verifU32": true, "verifU64": true,
 	"verifI8": true, "verifI16": true, "verifI32": true, "verifI64": true, "verifInt": true,
-	"verifBytes": true, "verifString": true, "verifChoice": true, "verifAssume": true, "verifAssert": true,
+	"verifBytes": true, "verifIntFrom": true, "verifString": true, "verifChoice": true, "verifAssume": true, "verifAssert": true,
 	"verifReach": true, "verifTag": true, "verifObserve": true, "verifParam": true, "verifRegister": true,
-	"verifSymbolic": true, "verifIsConcrete": true, "verifCheck": true, "verifFlushChecks": true, "verifAnd": true, "verifOr": true,
+	"verifSymbolic": true, "verifIsConcrete": true, "verifCheck": true, "verifFlushChecks": true, "verifAnd": true, "verifSelU8": true, "verifOr": true,
 	// environment
 	"verifFSSnapshot": true, "verifFSRestore": true, "verifFSCutToSynced": true, "verifFSReset": true,
 	"verifTick": true, "verifYield": true, "verifNumTickers": true, "verifLockHeld": true,
